@@ -1,0 +1,14 @@
+//go:build verif
+
+package suggestionclient
+
+import (
+	"google.golang.org/grpc"
+
+	suggestionapi "github.com/kubeflow/katib/pkg/apis/manager/v1beta1"
+)
+
+func SetVerifRPCClients(s func(*grpc.ClientConn) suggestionapi.SuggestionClient, e func(*grpc.ClientConn) suggestionapi.EarlyStoppingClient) {
+	getRPCClientSuggestion = s
+	getRPCClientEarlyStopping = e
+}
